@@ -28,7 +28,7 @@ def run(rep, rng, tier):
     def add_zc(xs, keep, tol):
         site = 'get_zero_crossings_array_indices[keep_adj_zeros=%s,tol%s0]' % (keep, '>' if tol > 0 else '=')
         args = {'values': list(map(float, xs)), 'keep_adj_zeros': keep, 'tol': tol}
-        r = guarded(zc, np.array(xs, dtype=float), keep_adj_zeros=keep, tol=tol)
+        r = core.guarded_pure(zc, np.array(xs, dtype=float), keep_adj_zeros=keep, tol=tol)
         if isinstance(r, ImplError):
             rep.violation(site, {'function': site, 'args': args, 'impl_error': str(r)})
             return None
@@ -42,7 +42,7 @@ def run(rep, rng, tier):
             return None
         site = 'get_switched_peak_array_indices[tol%s0]' % ('>' if tol > 0 else '=')
         args = {'values': list(map(float, xs)), 'tol': tol}
-        r = guarded(sp, np.array(xs, dtype=float), tol=tol)
+        r = core.guarded_pure(sp, np.array(xs, dtype=float), tol=tol)
         if isinstance(r, ImplError):
             rep.violation(site, {'function': site, 'args': args, 'impl_error': str(r)})
             return None
